@@ -69,6 +69,16 @@ def instrument(app) -> None:
     bc = o.blocking_control
     _wrap(bc, "release_waiters", lambda *a, **k: "release")
     _wrap(bc, "waiting_for_results", lambda *a, **k: "wait")
+    # the announcer's look at the awaited ids' statuses (labelled with the number of ids found final, so after the call)
+    orig_fbs = o.filter_by_status
+    if not getattr(orig_fbs, "_verif_wrapped", False):
+        def fbs(*a: Any, **k: Any):
+            r = orig_fbs(*a, **k)
+            _rec(f"final_check {len(r)}")
+            return r
+
+        fbs._verif_wrapped = True  # type: ignore[attr-defined]
+        o.filter_by_status = fbs  # type: ignore[method-assign]
 
 
 def trace(fn: Callable[[], Any]) -> list[str]:
@@ -133,6 +143,15 @@ def extract(tmp: str) -> dict[str, list[str]]:
     list(app.orchestrator.get_invocations_to_run(1, ctx))
     i2 = app.state_backend.get_invocation(inv.invocation_id)
     progs["runRetry"] = trace(lambda: i2.run(ctx))
+    # announcing a wait (`orchestrator.waiting_for_results`) for a sub-task that is still open / that has already finished
+    par, kid = plain(40), plain(41)
+    progs["announcePending"] = trace(lambda: app.orchestrator.waiting_for_results(par.invocation_id, [kid.invocation_id]))
+    list(app.orchestrator.get_invocations_to_run(5, ctx))
+    app.orchestrator.set_invocation_status(kid.invocation_id, S.RUNNING, ctx)
+    app.orchestrator.set_invocation_status(kid.invocation_id, S.SUCCESS, ctx)
+    progs["announceFinished"] = trace(lambda: app.orchestrator.waiting_for_results(par.invocation_id, [kid.invocation_id]))
+    app.orchestrator.set_invocation_status(par.invocation_id, S.RUNNING, ctx)
+    app.orchestrator.set_invocation_status(par.invocation_id, S.SUCCESS, ctx)
     # kill and reroute of a RUNNING invocation
     inv = plain(5)
     list(app.orchestrator.get_invocations_to_run(5, ctx))
